@@ -3,6 +3,7 @@ package side
 import (
 	"bytes"
 	"compress/flate"
+	"compress/zlib"
 	"compress/gzip"
 	"encoding/json"
 	"fmt"
@@ -68,6 +69,10 @@ type c12Case struct {
 	// target honours the Accept-Encoding of the request it receives: it answers with the first coding listed there
 	// that it knows (deflate, gzip), else uncompressed.
 	AcceptEncoding string `json:"acceptEncoding,omitempty"`
+	// PreferDeflate: the target (or a server in front of it) likes "deflate" best: whenever the request it receives
+	// offers deflate - anywhere in the list - it answers with it, in the zlib format of the standard ("zlib") or as a
+	// raw deflate stream ("raw", what some servers send)
+	PreferDeflate string `json:"preferDeflate,omitempty"`
 }
 
 func (c *c12Case) payload() []byte {
@@ -229,8 +234,21 @@ func runC12(rec *vkit.Recorder, c *c12Case) []vkit.Violation {
 			h.Set("Content-Type", c.CType)
 		}
 		first := strings.TrimSpace(strings.Split(strings.Split(r.Header.Get("Accept-Encoding"), ",")[0], ";")[0])
+		offersDeflate := false
+		for _, e := range strings.Split(r.Header.Get("Accept-Encoding"), ",") {
+			if strings.TrimSpace(strings.Split(e, ";")[0]) == "deflate" {
+				offersDeflate = true
+			}
+		}
 		switch {
-		case first == "deflate":
+		case c.PreferDeflate == "zlib" && offersDeflate:
+			var zb bytes.Buffer
+			zw := zlib.NewWriter(&zb)
+			_, _ = zw.Write(pl)
+			_ = zw.Close()
+			body = zb.Bytes()
+			h.Set("Content-Encoding", "deflate")
+		case first == "deflate" || (c.PreferDeflate == "raw" && offersDeflate):
 			var zb bytes.Buffer
 			zw, _ := flate.NewWriter(&zb, flate.DefaultCompression)
 			_, _ = zw.Write(pl)
@@ -458,6 +476,7 @@ func genC12(t *rapid.T) *c12Case {
 	}
 	c.Timeout = rapid.SampledFrom([]string{"", "", "900ms", "1500ms", "1s", "14s"}).Draw(t, "timeout")
 	c.Limits = rapid.IntRange(0, 2).Draw(t, "limits") == 0
+	c.PreferDeflate = rapid.SampledFrom([]string{"", "", "zlib", "raw"}).Draw(t, "preferDeflate")
 	c.AcceptEncoding = rapid.SampledFrom([]string{"", "", "", "deflate, gzip, br, zstd", "none", "identity", "gzip;q=1.0, deflate;q=0.5"}).Draw(t, "acceptEncoding")
 	return c
 }
